@@ -47,11 +47,11 @@ impl Family for Inference {
         30
     }
     fn rule(&self) -> &'static str {
-        "closures with unannotated parameters `|x| B`, `|x, y| B` and a let-bound `|x| B` applied to itself, where B ranges over every application of {ref, ref_get, ref_set, vec_len, vec_push, vec_get, array_get, array_set, ==, tuple, array, if, projection, the parameters themselves} to arguments from {x, y, ref(x), ref_get(x), vec_new(), (x,x), [x,x], x(x), 0, vec_push(x,y)} (1160 bodies x 3 frames); oracle: the compiler returns (acceptance or diagnostics) without panic, stack overflow or hang; an accepted program passes the IR checker. non-trivial = bodies the typer rejects; distinct = distinct source text"
+        "closures with unannotated parameters `|x| B`, `|x, y| B` and a let-bound `|x| B` applied to itself, where B ranges over every application of {ref, ref_get, ref_set, vec_len, vec_push, vec_get, array_get, array_set, ==, tuple, array, if, projection, the parameters themselves} to arguments from {x, y, ref(x), ref_get(x), vec_new(), (x,x), [x,x], x(x), 0, vec_push(x,y)} (1160 bodies x 6 frames: unapplied, two parameters, applied to itself, applied later to two functions / two vectors / two integers); oracle: the compiler returns (acceptance or diagnostics) without panic, stack overflow or hang; an accepted program passes the IR checker and the Go checker. non-trivial = bodies the typer rejects; distinct = distinct source text"
     }
     fn cases(&self, _tier: Tier) -> Box<dyn Iterator<Item = Value> + '_> {
         let n = bodies().len();
-        Box::new((0..n).flat_map(|i| (0..3).map(move |fr| json!({"body": i, "frame": fr}))))
+        Box::new((0..n).flat_map(|i| (0..6).map(move |fr| json!({"body": i, "frame": fr}))))
     }
     fn run(&self, case: &Value, ctx: &mut Ctx) -> Report {
         let mut rep = Report::default();
@@ -59,7 +59,11 @@ impl Family for Inference {
         let text = match case["frame"].as_u64().unwrap() {
             0 => format!("fn main() {{\n    let f = |x| {};\n    ()\n}}\n", body),
             1 => format!("fn main() {{\n    let f = |x, y| {};\n    ()\n}}\n", body),
-            _ => format!("fn main() {{\n    let y = 1;\n    let f = |x| {};\n    let g = f(f);\n    ()\n}}\n", body),
+            2 => format!("fn main() {{\n    let y = 1;\n    let f = |x| {};\n    let g = f(f);\n    ()\n}}\n", body),
+            // the parameter types are only fixed by a later application: to functions, to vectors, to integers
+            3 => format!("fn inc(k: int32) -> int32 {{ k + 1 }}\nfn dec(k: int32) -> int32 {{ k - 1 }}\nfn main() {{\n    let f = |x, y| {};\n    let r = f(inc, dec);\n    ()\n}}\n", body),
+            4 => format!("fn main() {{\n    let w: Vec[int32] = vec_new();\n    let f = |x, y| {};\n    let r = f(w, w);\n    ()\n}}\n", body),
+            _ => format!("fn main() {{\n    let f = |x, y| {};\n    let r = f(1, 2);\n    ()\n}}\n", body),
         };
         let site = format!("body={};frame={}", body, case["frame"]);
         let replay = json!({"kind": "text", "text": text, "oracle": "total"});
@@ -72,6 +76,19 @@ impl Family for Inference {
                 for (stage, msg) in crate::irck::check_all(&c) {
                     rep.tag(format!("irck:{}", stage));
                     rep.findings.push(Finding { property: "C03", class: format!("irck.{}", stage), site: format!("{};msg={}", site, normalise_msg(&msg)), detail: msg, replay: replay.clone() });
+                }
+                // what the typer lets through must also be valid Go (an ill-typed operator use that
+                // inference resolves too late shows up here)
+                if let Ok(go) = go_text(&c) {
+                    if let crate::gosem::GoVerdict::Rejected(errs) = crate::gosem::analyse(&go) {
+                        rep.tag("go:rejected");
+                        for p in ["C03", "C04"] {
+                            if p == "C04" {
+                                continue;
+                            }
+                            rep.findings.push(Finding { property: p, class: format!("go.{}", errs[0].rule), site: format!("{};goerr={}", site, normalise_msg(&errs[0].msg)), detail: format!("line {}: {}", errs[0].line, errs[0].msg), replay: json!({"kind": "text", "text": text, "oracle": "total", "go_text": go}) });
+                        }
+                    }
                 }
             }
             CompileOutcome::Err(e) => {
